@@ -49,6 +49,14 @@ def build_corpus(tier, rng):
     for j, pf in enumerate(("colour/", "p", "é:")):
         vs = [Variant("Red", "unit"), Variant("Blue", "tuple", [Field("u8")], [ser("b%d" % j)]), Variant("DarkGreen", "unit", [], [aci(True, explicit=False)])]
         cands.append(("prefix", Item("E", vs, metas=[EM("prefix", pf), EM("pety", "PErr"), EM("pefn", "perr_a")] + ([EM("sall", "snake_case")] if j else []))))
+    # the user's function may have ANY name, also one a generated helper would like to use
+    for j, fn in enumerate(("not_found", "parse_error", "from_str", "try_from", "err", "error", "default", "variant_not_found", "value", "phf", "fallback", "parse",
+                            "make_error")):
+        vs = [Variant("Red", "unit"), Variant("Blue", "tuple", [Field("u8")], [ser("b%d" % j)]), Variant("DarkGreen", "unit", [], [aci(True, explicit=False)])]
+        cands.append(("fn-names", Item("E", vs, metas=[EM("pety", "PErr"), EM("pefn", fn)] + ([EM("phf")] if j % 4 == 3 else []))))
+        if j % 4 == 3:
+            for v in vs:
+                v.kind, v.fields = "unit", []
     for it in c01.systematic(rng):
         it.variants = [v for v in it.variants if not v.has("default")]
         it.metas = [m for m in it.metas if m.kind not in ("pety", "pefn")] + [EM("pefn", "perr::b"), EM("pety", "PErr")]
